@@ -556,6 +556,13 @@ func canonicalOverlay(initial []*packages.Package) (map[string][]byte, []string)
 		if r.obj == nil {
 			continue
 		}
+		// renaming is a source rewrite: it must not change what any identifier refers to. A local renamed back to a name
+		// that an enclosing variable also has (`for i ... { for j ... { f(i) } }` with j -> i) would capture the uses of
+		// the outer one — and silently undo exactly the kind of wrong-variable slip the rules are there to see.
+		if renameWouldCapture(pkgs, r.obj, r.to) {
+			notes = append(notes, "NOT applied (would change a binding): "+r.what)
+			continue
+		}
 		byObj[r.obj] = r.to
 		notes = append(notes, r.what)
 	}
@@ -631,4 +638,66 @@ func nameSimilarity(a, b string) float64 {
 		m = lb
 	}
 	return float64(prev[lb]) / float64(m)
+}
+
+// renameWouldCapture: giving obj the name `to` would make some identifier refer to a different object than it does now.
+// Two ways: (1) inside obj's scope an identifier `to` is used that denotes another object (it would now find obj first);
+// (2) a use of obj sits inside a nested scope that declares its own `to` (the use would find that one). Fields and
+// methods are reached through selectors and have no such hazard.
+func renameWouldCapture(pkgs []*packages.Package, obj types.Object, to string) bool {
+	if v, ok := obj.(*types.Var); ok && v.IsField() {
+		return false
+	}
+	if f, ok := obj.(*types.Func); ok {
+		if sig, ok := f.Type().(*types.Signature); ok && sig.Recv() != nil {
+			return false
+		}
+	}
+	scope := obj.Parent()
+	if scope == nil || obj.Pkg() == nil {
+		return false
+	}
+	for _, pk := range pkgs {
+		if pk.Types != obj.Pkg() {
+			continue
+		}
+		for id, used := range pk.TypesInfo.Uses {
+			switch {
+			case id.Name == to && used != obj:
+				// (1) the other object's use lies where obj is visible
+				if scope == pk.Types.Scope() {
+					// package-level obj: every use of a same-named local or universe object inside the package is fine
+					// (locals shadow it), a same-named package-level object would be a redeclaration
+					if used.Parent() == pk.Types.Scope() || used.Parent() == types.Universe {
+						return true
+					}
+				} else if scope.Contains(id.Pos()) && id.Pos() >= obj.Pos() {
+					// the use must not already be bound more closely than obj would be
+					inner := pk.Types.Scope().Innermost(id.Pos())
+					closer := false
+					for s := inner; s != nil && s != scope; s = s.Parent() {
+						if s.Lookup(to) != nil {
+							closer = true
+						}
+					}
+					if !closer {
+						return true
+					}
+				}
+			case used == obj:
+				// (2) a nested scope between the use and obj's scope declares `to`
+				inner := pk.Types.Scope().Innermost(id.Pos())
+				for s := inner; s != nil && s != scope; s = s.Parent() {
+					if o := s.Lookup(to); o != nil && o.Pos() < id.Pos() {
+						return true
+					}
+				}
+			}
+		}
+		// a definition of `to` in the very scope of obj (two locals ending up with one name)
+		if other := scope.Lookup(to); other != nil && other != obj {
+			return true
+		}
+	}
+	return false
 }
